@@ -178,6 +178,8 @@ package files
 //
 //@ inline func ownedByFilesystem(path string) (result bool)
 //
+//@ inline func occupant(all map[string]*Content, dst string) (c *Content, ok bool)
+//
 //@ inline func addTree$1(path string, d fs.DirEntry, err error) (result error) captures (all map[string]*Content, tree *Content, mtime time.Time)
 //@   requires [C11 C12 C07] plan-map-ok: planMapOK(all, !mtime.IsZero())
 //@   requires [C06] no-failure-so-far: !flag("failed")
@@ -195,7 +197,8 @@ package files
 //@   onstore (m map[string]*Content, key string, val *Content)
 //@   storeassert [C05] S1-key-is-destination: val != nil && val.Destination == key
 //@   storeassert [C05 C04] S2-key-normalised: strings.HasPrefix(key, "/") && !strings.Contains(key, "//") && !strings.Contains(key, "/../") && !strings.Contains(key, "/./")
-//@   storeassert [C05 C04] S2-directories-end-in-slash: implies(val != nil && key != "/", isDirType(val.Type) == strings.HasSuffix(key, "/"))
+//@   storeassert [C05 C04] S2-directories-end-in-slash: implies(val != nil && key != "/" && isDirType(val.Type), strings.HasSuffix(key, "/"))
+//@   storeassert [C05 C04] S2-only-directories-end-in-slash: implies(val != nil && key != "/" && strings.HasSuffix(key, "/"), isDirType(val.Type))
 //@   storeassert [C05] S3-no-silent-overwrite: key == "/" || !mapHas(m, key) || (m[key] != nil && m[key].Type == "implicit dir" && val != nil && isDirType(val.Type))
 //@   storeassert [C05] S4-no-file-directory-twin: key == "/" || !mapHas(m, twinKey(key))
 //@   loop 0 (contentMap map[string]*Content)
